@@ -11,7 +11,7 @@ import z3
 
 from .source import EngineError, ClassInfo, BUILTIN_CLASSES, Program
 from .vals import (Sym, Obj, Opaque, Closure, BoundMethod, Builtin, ExternalRef, HostMethod,
-                   OpaqueMethod, SuperProxy, MsgVal, ModuleVal, UNBOUND, is_sym, numeric_kind)
+                   OpaqueMethod, SuperProxy, MsgVal, ModuleVal, UNBOUND, is_sym, numeric_kind, FSpec)
 from .world import World, PathEnd
 from . import ops
 
@@ -407,6 +407,8 @@ class Interp:
             raise EngineError(f"truth of {v!r}")
         if isinstance(v, (int, float, str, tuple, list, dict, set, frozenset, collections.deque, fractions.Fraction, range, bytes)):
             return bool(v)
+        if isinstance(v, FSpec):
+            return True
         if isinstance(v, Obj):
             r = v.cls.lookup("__bool__")
             if r and r[1] == "method":
@@ -1508,7 +1510,10 @@ class Interp:
             yield from emit(fr)
             return
         g = gens[i]
-        it = yield from self.ev(g.iter, fr if i else fr.parent_for_first_iter)
+        if i == 0 and hasattr(fr, "first_iter_value"):
+            it = fr.first_iter_value
+        else:
+            it = yield from self.ev(g.iter, fr if i else fr.parent_for_first_iter)
         items = yield from self.iterate(it)
         for x in items:
             yield from self.assign(g.target, x, fr)
@@ -1534,9 +1539,29 @@ class Interp:
         cf.parent_for_first_iter = fr
         return cf
 
+    def _generic_source(self, e, fr, cf):
+        """evaluates the first iterable once; returns a GenericColl when the comprehension ranges over a
+        collection of *arbitrary length* (one generic element stands for all of them), else None"""
+        from .vals import GenericColl
+        it = yield from self.ev(e.generators[0].iter, fr)
+        if isinstance(it, Opaque) and it.spec.get("iter_generic") is not None:
+            it = it.spec["iter_generic"](self, it)
+        cf.first_iter_value = it
+        if isinstance(it, GenericColl):
+            if len(e.generators) != 1 or e.generators[0].ifs:
+                raise EngineError("generic comprehension with filters / nested loops needs a contract")
+            return it
+        return None
+
     def ev_ListComp(self, e, fr):
+        from .vals import GenericColl
         out = []
         cf = self._comp_frame(e, fr)
+        gsrc = yield from self._generic_source(e, fr, cf)
+        if gsrc is not None:
+            yield from self.assign(e.generators[0].target, gsrc.elem, cf)
+            v = yield from self.ev(e.elt, cf)
+            return GenericColl("list", v, gsrc.source, gsrc)
 
         def emit(f):
             out.append((yield from self.ev(e.elt, f)))
@@ -1550,8 +1575,15 @@ class Interp:
         return self.make_set((yield from self.ev_ListComp(e, fr)))
 
     def ev_DictComp(self, e, fr):
+        from .vals import GenericColl
         out = {}
         cf = self._comp_frame(e, fr)
+        gsrc = yield from self._generic_source(e, fr, cf)
+        if gsrc is not None:
+            yield from self.assign(e.generators[0].target, gsrc.elem, cf)
+            k = yield from self.ev(e.key, cf)
+            v = yield from self.ev(e.value, cf)
+            return GenericColl("dict", (k, v), gsrc.source, gsrc)
 
         def emit(f):
             k = yield from self.ev(e.key, f)
